@@ -64,7 +64,7 @@ def hist_slice(tier):
     return 1
 
 
-def gen_case(rng, arm, tier):
+def gen_case(rng, arm, tier, k=0):
     K = rng.randint(2, 3)
     d = rng.randint(1, 3)
     style = rng.choice(("generic", "lattice", "dups", "positive", "lattice"))
